@@ -7,16 +7,16 @@ CONSTANTS
  Dev = {"badevent", "status", "readerr", "partial", "dedup"}
  TrimOn = "match"
  Defect = "none"
- MaxFeeds = 2
- MaxDials = 2
- MaxTime = 2
+ MaxFeeds = 4
+ MaxDials = 1
+ MaxTime = 1
  MaxSubs = 1
- FeedSet <- FramesMixed
+ FeedSet <- FramesGossipSmall
  DialSet <- DialOK
- CloseSet <- CloseSoft
+ CloseSet <- CloseNone
  AllowCancel = FALSE
- Spe = 4
- Gen <- Gen0
+ Spe = 2
+ Gen <- GenM20
  AKinds <- AllOK
 INVARIANTS Safety
 CHECK_DEADLOCK FALSE
